@@ -32,6 +32,9 @@ func (e *Exec) ifaceStub(st *State, r *IfaceV, m *types.Func, args []Val, where 
 	if r.T == errType && m.Name() == "Error" {
 		return r.V, true
 	}
+	if rt, ok := r.V.(*ReflT); ok {
+		return e.reflTypeMethod(st, rt, m, args, where)
+	}
 	if u, ok := r.T.(*types.Named); ok && u.Obj().Name() == "verifOutWriter" {
 		_ = u
 	}
@@ -283,12 +286,68 @@ func init() {
 			return e.F.FromIndexInt(cnt, types.Typ[types.Int])
 		},
 		"vRegister": func(e *Exec, st *State, fn *ssa.Function, args []Val, where string) Val { return nil },
+		"vFloatText": func(e *Exec, st *State, fn *ssa.Function, args []Val, where string) Val {
+			name := e.inputName(st, args, where)
+			e.Input(name, "float", types.Typ[types.Float64])
+			return &StrV{Conc: "@f:" + name + "@"}
+		},
+		"vIntText": func(e *Exec, st *State, fn *ssa.Function, args []Val, where string) Val {
+			name := e.inputName(st, args, where)
+			e.Input(name, "int", types.Typ[types.Int])
+			return &StrV{Conc: "@i:" + name + "@"}
+		},
+		"vFieldName": func(e *Exec, st *State, fn *ssa.Function, args []Val, where string) Val {
+			// name of the i-th field of the struct that the (pointer) argument points to
+			iv, ok := args[0].(*IfaceV)
+			if !ok || iv.T == nil {
+				panic(&UnsupportedErr{Msg: "vFieldName needs a pointer to a struct at " + where})
+			}
+			t := iv.T
+			if pt, ok := t.Underlying().(*types.Pointer); ok {
+				t = pt.Elem()
+			}
+			s, ok := t.Underlying().(*types.Struct)
+			k, okc := e.term(args[1], "vFieldName").ConstInt()
+			if !ok || !okc || k < 0 || int(k) >= s.NumFields() {
+				panic(&UnsupportedErr{Msg: "vFieldName: bad argument at " + where})
+			}
+			return &StrV{Conc: s.Field(int(k)).Name()}
+		},
 	}
+}
+
+// numToken recognises the text that vFloatText / vIntText produce under the
+// executor: "@f:<input name>@" / "@i:<input name>@". Natively the same
+// intrinsics render the replayed value, so parsing it gives the input back.
+func numToken(s string) (name, kind string, ok bool) {
+	if len(s) > 4 && s[0] == '@' && s[2] == ':' && s[len(s)-1] == '@' && (s[1] == 'f' || s[1] == 'i') {
+		return s[3 : len(s)-1], string(s[1]), true
+	}
+	return "", "", false
 }
 
 // ---- standard library stubs
 
 var stubs map[string]stubFn
+
+// splitStrIte: when an argument is a conditional string, the (pure) stub is evaluated for both
+// alternatives and the results are merged.
+func (e *Exec) splitStrIte(st *State, fn *ssa.Function, args []Val, where string, f stubFn) (Val, bool) {
+	for i, a := range args {
+		it, ok := a.(*StrIte)
+		if !ok {
+			continue
+		}
+		aa := append([]Val{}, args...)
+		aa[i] = it.A
+		ra := f(e, st, fn, aa, where)
+		ab := append([]Val{}, args...)
+		ab[i] = it.B
+		rb := f(e, st, fn, ab, where)
+		return e.mergeVal(it.C, ra, rb), true
+	}
+	return nil, false
+}
 
 func concArgs(e *Exec, args []Val) ([]string, bool) {
 	out := make([]string, len(args))
@@ -532,7 +591,9 @@ func (e *Exec) fmtSymInt(st *State, v *Term, flags string, where string) Val {
 }
 
 func init() {
-	stubs = map[string]stubFn{}
+	if stubs == nil {
+		stubs = map[string]stubFn{}
+	}
 	for _, n := range []string{"log.Fatal", "log.Fatalf", "log.Fatalln", "log.Panic", "log.Panicf", "log.Panicln"} {
 		stubs[n] = abortStub("fatal")
 	}
@@ -592,20 +653,29 @@ func init() {
 		return e.strSliceVal(st, strings.Split(a[0], a[1]))
 	}
 	conc2b := func(f func(string, string) bool) stubFn {
-		return func(e *Exec, st *State, fn *ssa.Function, args []Val, where string) Val {
+		var self stubFn
+		self = func(e *Exec, st *State, fn *ssa.Function, args []Val, where string) Val {
+			if v, ok := e.splitStrIte(st, fn, args, where, self); ok {
+				return v
+			}
 			a, ok := concArgs(e, args)
 			if !ok {
 				return e.symStrPred(st, fn.Name(), args, where)
 			}
 			return e.S.Bool(f(a[0], a[1]))
 		}
+		return self
 	}
 	stubs["strings.HasPrefix"] = conc2b(strings.HasPrefix)
 	stubs["strings.HasSuffix"] = conc2b(strings.HasSuffix)
 	stubs["strings.Contains"] = conc2b(strings.Contains)
 	stubs["strings.EqualFold"] = conc2b(strings.EqualFold)
 	conc2s := func(f func(string, string) string) stubFn {
-		return func(e *Exec, st *State, fn *ssa.Function, args []Val, where string) Val {
+		var self stubFn
+		self = func(e *Exec, st *State, fn *ssa.Function, args []Val, where string) Val {
+			if v, ok := e.splitStrIte(st, fn, args, where, self); ok {
+				return v
+			}
 			a, ok := concArgs(e, args)
 			if !ok {
 				e.unsupported(st, fn.String()+" on symbolic string at "+where)
@@ -613,6 +683,7 @@ func init() {
 			}
 			return &StrV{Conc: f(a[0], a[1])}
 		}
+		return self
 	}
 	stubs["strings.TrimPrefix"] = conc2s(strings.TrimPrefix)
 	stubs["strings.TrimSuffix"] = conc2s(strings.TrimSuffix)
@@ -719,6 +790,14 @@ func init() {
 			e.unsupported(st, "ParseFloat on symbolic string at "+where)
 			return TupleV{&Poison{Why: "ParseFloat"}, &Poison{Why: "ParseFloat"}}
 		}
+		if name, kind, ok := numToken(s); ok {
+			// numeric token (vFloatText / vIntText): the text of a harness input
+			if kind == "f" {
+				return TupleV{e.Input(name, "float", types.Typ[types.Float64]), &IfaceV{}}
+			}
+			v := e.Input(name, "int", types.Typ[types.Int])
+			return TupleV{e.convert(st, v, types.Typ[types.Int], types.Typ[types.Float64], where), &IfaceV{}}
+		}
 		f, err := strconv.ParseFloat(s, 64)
 		if err != nil {
 			return TupleV{e.F.FloatConst(0), e.mkError(&StrV{Conc: err.Error()})}
@@ -824,6 +903,11 @@ func (e *Exec) parseInt(st *State, sv Val, bits int, where string) (Val, Val) {
 	}
 	res := e.strMap(sv, func(x *StrV) Val {
 		if x.Sym == nil {
+			if name, kind, ok := numToken(x.Conc); ok && kind == "i" {
+				// numeric token (vIntText): the decimal text of a harness input
+				v := e.Input(name, "int", types.Typ[types.Int])
+				return TupleV{e.convert(st, v, types.Typ[types.Int], it, where), s.True}
+			}
 			var v int64
 			var err error
 			if bits < 0 {
